@@ -157,7 +157,7 @@ pub fn owners(oracle: &str) -> &'static [&'static str] {
     match head {
         // a strongly reachable value destructed / released / unreadable
         // (C08: "sweeping begins only from a fully marked arena" - its observable consequence is exactly this)
-        "safe" => &["C01", "C05", "C06", "C07", "C08", "C11", "C14", "C20"],
+        "safe" => &["C01", "C05", "C06", "C07", "C08", "C11", "C13", "C14", "C19", "C20"],
         "once" => &["C04", "C11", "C20"],
         "alloc" => &["C04", "C11", "C20"],
         "api" => &["C01", "C02", "C03", "C04", "C05", "C06", "C07", "C08", "C10", "C11", "C14", "C20"],
@@ -167,10 +167,13 @@ pub fn owners(oracle: &str) -> &'static [&'static str] {
         "c04" => &["C04", "C11", "C14", "C20"],
         "c05" => &["C05", "C11", "C20"],
         "c06" => &["C06"],
-        "c07" => &["C07"],
+        // (C06: "the collection in progress treats the target exactly as if the pointer had been there": a
+        // MarkedArena that reports an adopted, reachable child dead contradicts it)
+        "c07" => &["C07", "C06"],
         "c08" => &["C08"],
         "c10" => &["C10"],
-        "c11" => &["C11"],
+        // (C04: a failed constructor / root mapping must still destruct and release everything)
+        "c11" => &["C11", "C04"],
         "c14" => &["C14"],
         "c20" => &["C20"],
         _ => &[],
